@@ -30,11 +30,34 @@ const queryID = 60000
 
 type refMatcher struct {
 	neg     bool
-	builtin int // 0 harness plugin, 1 _true, 2 _false, 3 mark (real plugin: true if any of args is set)
+	builtin int // 0 harness plugin, 1 _true, 2 _false, 3 mark (real plugin: true if any of args is set), 4 rcode 5 qtype 6 qclass (real plugins: true if the value is one of args; rcode false without a response), 7 has_resp (real plugin)
 	kind    string
 	label   string
-	n       int   // harness state matchers K V Q R
-	args    []int // mark
+	n       int   // harness state matchers K V Q R Y C
+	args    []int // mark rcode qtype qclass
+}
+
+const (
+	bMark = 3 + iota
+	bRcode
+	bQtype
+	bQclass
+	bHasResp
+)
+
+var realIntMatchers = map[string]int{"rcode": bRcode, "qtype": bQtype, "qclass": bQclass}
+
+// the real int matchers take decimal ints (strconv.Atoi)
+func parseInts(args string) ([]int, error) {
+	var out []int
+	for _, f := range strings.Fields(args) {
+		n, err := strconv.Atoi(f)
+		if err != nil {
+			return nil, err
+		}
+		out = append(out, n)
+	}
+	return out, nil
 }
 
 type refAction struct {
@@ -135,10 +158,18 @@ func refParseMatcher(p *Program, text string) (refMatcher, error) {
 		m.kind, m.n, m.label = k, n, l
 		return m, err
 	case head == "mark":
-		m.builtin = 3
+		m.builtin = bMark
 		var err error
 		m.args, err = parseMarks(args)
 		return m, err
+	case realIntMatchers[head] != 0:
+		m.builtin = realIntMatchers[head]
+		m.kind = head
+		var err error
+		m.args, err = parseInts(args)
+		return m, err
+	case head == "has_resp":
+		m.builtin = bHasResp
 	default:
 		return m, fmt.Errorf("unknown matcher type %q", head)
 	}
@@ -241,8 +272,12 @@ func refCompile(p *Program) (*refProg, error) {
 					cb.WriteString("_t ")
 				case 2:
 					cb.WriteString("_f ")
-				case 3:
+				case bMark:
 					cb.WriteString("mark" + fmt.Sprint(m.args) + " ")
+				case bRcode, bQtype, bQclass:
+					cb.WriteString(m.kind + fmt.Sprint(m.args) + " ")
+				case bHasResp:
+					cb.WriteString("has_resp ")
 				default:
 					cb.WriteString(m.kind + " ")
 					if isStateMatcher(m.kind) {
@@ -359,6 +394,16 @@ type feats struct {
 	isoReads map[string]int
 	// ... by the wrapper kind that made the copy the reading or the writing context descends from
 	isoReadsByWrap map[string]int
+
+	// boundary values / sizes (the maxima are per execution; merged with max)
+	maxJumpsOnPath, maxGotosOnPath int // jump / goto actions executed on one path from the top-level start to its end
+	maxMarks, maxValues            int // distinct marks / stored values one query context carried
+	maxRulesVisited                int // rules visited (matched or skipped) on one path
+	// reads of a mark (real matcher and harness matcher) by value class and outcome, and by
+	// the number of marks the query carried at that moment; reads by the real int matchers
+	// rcode / qtype / qclass / has_resp by "<type> <current value class> <verdict>"
+	markReadsByValue, markReadsByCount, realMatcherReads map[string]int
+	pathBuckets                                          map[string]int // executions by size class, filled by exec()
 }
 
 type refOverflow struct{}
@@ -368,6 +413,11 @@ type refState struct {
 	marks     map[int]bool
 	kv        map[int]string
 	qid       int
+	qtype     int
+	qclass    int
+	jumps     int // jump / goto actions executed and rules visited on the path that led here
+	gotos     int
+	visited   int
 	fam       *family
 	via       string // wrapper kind that created this context ("" = the original query)
 	trace     []string
@@ -392,7 +442,8 @@ type stateEv struct {
 
 // child returns what Copy() of the query context must be: the same state now, independent afterwards.
 func (st *refState) child(via string) *refState {
-	c := &refState{resp: st.resp, qid: st.qid, fam: st.fam, via: via, steps: st.steps, limit: st.limit, ft: st.ft, postDepth: st.postDepth}
+	c := &refState{resp: st.resp, qid: st.qid, qtype: st.qtype, qclass: st.qclass, jumps: st.jumps, gotos: st.gotos, visited: st.visited,
+		fam: st.fam, via: via, steps: st.steps, limit: st.limit, ft: st.ft, postDepth: st.postDepth}
 	if st.marks != nil {
 		c.marks = make(map[int]bool, len(st.marks))
 		for k, v := range st.marks {
@@ -450,10 +501,68 @@ func (st *refState) setMark(dim string, n int, on bool) {
 			st.marks = map[int]bool{}
 		}
 		st.marks[n] = true
+		if len(st.marks) > st.ft.maxMarks {
+			st.ft.maxMarks = len(st.marks)
+		}
 	} else {
 		delete(st.marks, n)
 	}
 	st.noteWrite(dim, "m"+strconv.Itoa(n), bit(on))
+}
+
+func valueClass(n, max int) string {
+	switch {
+	case n == 0:
+		return "0"
+	case n == max:
+		return "max"
+	case n == 1:
+		return "1"
+	case n <= 40:
+		return "2..40"
+	}
+	return "large"
+}
+
+func countClass(n int) string {
+	switch {
+	case n <= 5:
+		return strconv.Itoa(n)
+	case n <= 8:
+		return "6..8"
+	case n <= 15:
+		return "9..15"
+	case n <= 17:
+		return strconv.Itoa(n)
+	case n <= 31:
+		return "18..31"
+	case n <= 33:
+		return strconv.Itoa(n)
+	}
+	return "34+"
+}
+
+const maxUint32 = 1<<32 - 1
+
+// readMark: one HasMark the rules ask for (real 'mark' matcher or the harness K matcher)
+func (st *refState) readMark(dim string, n int) bool {
+	has := st.marks[n]
+	st.noteRead(dim, "m"+strconv.Itoa(n), bit(has))
+	o := " absent"
+	if has {
+		o = " present"
+	}
+	st.ft.markReadsByValue["value "+valueClass(n, maxUint32)+o]++
+	st.ft.markReadsByCount[countClass(len(st.marks))]++
+	return has
+}
+
+func (st *refState) noteRealMatcher(typ string, cur, max int, v bool) {
+	c := "no-response"
+	if cur >= 0 {
+		c = valueClass(cur, max)
+	}
+	st.ft.realMatcherReads[typ+" current="+c+" verdict="+bit(v)]++
 }
 
 // tally counts, after the execution, the reads whose answer depends on contexts not sharing state.
@@ -475,7 +584,7 @@ func (fam *family) tally(ft *feats) {
 
 func isStateMatcher(k string) bool {
 	switch k {
-	case "K", "V", "Q", "R":
+	case "K", "V", "Q", "R", "Y", "C":
 		return true
 	}
 	return false
@@ -483,7 +592,7 @@ func isStateMatcher(k string) bool {
 
 func isStateAction(k string) bool {
 	switch k {
-	case "mk", "um", "sv", "dv", "qi", "rm":
+	case "mk", "um", "sv", "dv", "qi", "rm", "qt", "qc":
 		return true
 	}
 	return false
@@ -526,6 +635,10 @@ func (rp *refProg) run(k *kframe, st *refState) string {
 		}
 		r := &rules[k.pc]
 		rest := &kframe{seq: k.seq, pc: k.pc + 1, up: k.up, depth: k.depth}
+		st.visited++
+		if st.visited > st.ft.maxRulesVisited {
+			st.ft.maxRulesVisited = st.visited
+		}
 
 		all := true
 		for i := range r.ms {
@@ -536,15 +649,42 @@ func (rp *refProg) run(k *kframe, st *refState) string {
 				v = true
 			case 2:
 				v = false
-			case 3: // real mark matcher: silent
+			case bMark: // real mark matcher: silent
 				for _, n := range m.args {
-					has := st.marks[n]
-					st.noteRead("mark-real", "m"+strconv.Itoa(n), bit(has))
-					if has {
+					if st.readMark("mark-real", n) {
 						v = true
 						break
 					}
 				}
+			case bRcode: // real rcode matcher: silent; false without a response
+				cur := -1
+				if rc := respRcode(st.resp); rc != "-" {
+					cur, _ = strconv.Atoi(rc)
+				}
+				st.noteRead("rcode", "rc", respRcode(st.resp))
+				for _, n := range m.args {
+					if cur >= 0 && n == cur {
+						v = true
+					}
+				}
+				st.noteRealMatcher("rcode", cur, 4095, v)
+			case bQtype, bQclass:
+				cur, dim := st.qtype, "qtype"
+				if m.builtin == bQclass {
+					cur, dim = st.qclass, "qclass"
+				}
+				st.noteRead(dim, dim, strconv.Itoa(cur))
+				for _, n := range m.args {
+					if n == cur {
+						v = true
+					}
+				}
+				st.noteRealMatcher(dim, cur, 65535, v)
+			case bHasResp:
+				v = st.resp != "-"
+				st.ft.hEval++
+				st.noteRead("response", "resp", bit(v))
+				st.ft.realMatcherReads["has_resp verdict="+bit(v)]++
 			default:
 				switch m.kind {
 				case "T":
@@ -560,9 +700,16 @@ func (rp *refProg) run(k *kframe, st *refState) string {
 					}
 					return "E:" + m.label
 				case "K":
-					v = st.marks[m.n]
-					st.noteRead("mark", "m"+strconv.Itoa(m.n), bit(v))
+					v = st.readMark("mark", m.n)
 					st.emit("M " + m.label + "=" + bit(v))
+				case "Y", "C":
+					cur, dim := st.qtype, "qtype"
+					if m.kind == "C" {
+						cur, dim = st.qclass, "qclass"
+					}
+					v = cur == m.n
+					st.noteRead(dim, dim, strconv.Itoa(cur))
+					st.emit("M " + m.label + "=" + strconv.Itoa(cur))
 				case "V":
 					var x string
 					x, v = st.kv[m.n]
@@ -631,6 +778,9 @@ func (rp *refProg) run(k *kframe, st *refState) string {
 					st.kv = map[int]string{}
 				}
 				st.kv[a.id] = a.label
+				if len(st.kv) > st.ft.maxValues {
+					st.ft.maxValues = len(st.kv)
+				}
 				st.noteWrite("value", "v"+strconv.Itoa(a.id), a.label)
 			case "dv":
 				delete(st.kv, a.id)
@@ -638,6 +788,12 @@ func (rp *refProg) run(k *kframe, st *refState) string {
 			case "qi":
 				st.qid = a.id
 				st.noteWrite("query-id", "q", strconv.Itoa(a.id))
+			case "qt":
+				st.qtype = a.id
+				st.noteWrite("qtype", "qtype", strconv.Itoa(a.id))
+			case "qc":
+				st.qclass = a.id
+				st.noteWrite("qclass", "qclass", strconv.Itoa(a.id))
 			case "rm":
 				if f := strings.Split(st.resp, "/"); len(f) == 3 {
 					st.setResp(f[0] + "/" + strconv.Itoa(a.id) + "/" + f[2])
@@ -670,9 +826,17 @@ func (rp *refProg) run(k *kframe, st *refState) string {
 			k = k.up
 		case "jump":
 			st.ft.jump++
+			st.jumps++
+			if st.jumps > st.ft.maxJumpsOnPath {
+				st.ft.maxJumpsOnPath = st.jumps
+			}
 			k = &kframe{seq: a.target, pc: 0, up: rest, depth: k.depth + 1}
 		case "goto":
 			st.ft.gotoN++
+			st.gotos++
+			if st.gotos > st.ft.maxGotosOnPath {
+				st.ft.maxGotosOnPath = st.gotos
+			}
 			if k.up != nil {
 				st.ft.gotoPending++
 			}
@@ -723,7 +887,9 @@ func (rp *refProg) wrap(a *refAction, rest *kframe, st *refState) string {
 	case "twice", "twicedrop":
 		st.emit(pre)
 		st.postDepth++
+		j0, g0, v0 := st.jumps, st.gotos, st.visited
 		e1 := rp.run(rest, st)
+		st.jumps, st.gotos, st.visited = j0, g0, v0 // the second run is another path with the same prefix
 		obs("mid", e1)
 		if a.kind == "twicedrop" {
 			st.setResp("-")
@@ -841,7 +1007,7 @@ func lateRuns(k string) int {
 // limit (program discarded, never handed to mosdns).
 func (rp *refProg) exec(entry int, preset bool, limit int, ft *feats) (res result, steps int, ok bool) {
 	fam := &family{writes: map[string][]stateEv{}}
-	st := &refState{resp: "-", qid: queryID, fam: fam, steps: &steps, limit: limit, ft: ft}
+	st := &refState{resp: "-", qid: queryID, qtype: 1, qclass: 1, fam: fam, steps: &steps, limit: limit, ft: ft}
 	if preset {
 		st.resp = respMarker(1, 0, 0)
 	}
@@ -856,10 +1022,35 @@ func (rp *refProg) exec(entry int, preset bool, limit int, ft *feats) (res resul
 	}()
 	e := rp.run(&kframe{seq: entry}, st)
 	fam.tally(ft)
+	for _, b := range []int{16, 64, 256} {
+		if ft.maxJumpsOnPath > b {
+			ft.pathBuckets["more than "+strconv.Itoa(b)+" jumps on one path"]++
+		}
+		if ft.maxGotosOnPath > b {
+			ft.pathBuckets["more than "+strconv.Itoa(b)+" gotos on one path"]++
+		}
+		if ft.maxDepth > b {
+			ft.pathBuckets["more than "+strconv.Itoa(b)+" pending jump returns (nesting)"]++
+		}
+	}
+	for _, b := range []int{100, 300, 1000} {
+		if ft.maxRulesVisited > b {
+			ft.pathBuckets["more than "+strconv.Itoa(b)+" rules visited on one path"]++
+		}
+	}
+	for _, b := range []int{4, 8, 16, 32} {
+		if ft.maxMarks > b {
+			ft.pathBuckets["more than "+strconv.Itoa(b)+" marks on one query"]++
+		}
+		if ft.maxValues > b {
+			ft.pathBuckets["more than "+strconv.Itoa(b)+" stored values on one query"]++
+		}
+	}
 	return result{Trace: st.trace, Resp: st.resp, Err: errStr(e), Deferred: st.deferred}, steps, true
 }
 
 func newFeats() *feats {
 	return &feats{wrapKinds: map[string]int{}, wrapPending: map[string]int{}, deferredReg: map[string]int{},
-		stateReads: map[string]int{}, stateWrites: map[string]int{}, isoReads: map[string]int{}, isoReadsByWrap: map[string]int{}}
+		stateReads: map[string]int{}, stateWrites: map[string]int{}, isoReads: map[string]int{}, isoReadsByWrap: map[string]int{},
+		markReadsByValue: map[string]int{}, markReadsByCount: map[string]int{}, realMatcherReads: map[string]int{}, pathBuckets: map[string]int{}}
 }
